@@ -159,13 +159,14 @@ def run(ctx):
             continue
         r = rng("C17py", proto.name)
         vg = values.ValueGen(c, r, json_safe=True)
-        for n in (0, 1, 4):
+        big_ns = (127, 128, 129, 255, 256, 300) if proto.name in [q.name for q in pkg.protocols()][:3] else ()     # batch lengths around the varint width steps
+        for n in (0, 1, 4) + big_ns:
             vals = []
             for i, (sn, t) in enumerate(proto.steps):
                 ft = c.fq(t)
                 vals.append(shaped_items(vg, ft.item, n, r) if isinstance(ft, S) else vg.gen(ft, 0))
             data = c.encode_stream(proto, m.schema(proto.name), vals)
-            for mode in ("copy_to", "list", "gen", "itemwise", "pairs"):
+            for mode in (("copy_to", "list", "gen", "itemwise", "pairs") if n <= 4 else ("list", "gen")):
                 ep = rt.PyEndpoint(m, mode=mode)
                 res = ep.copy(proto.name, "bin", "bin", data)
                 ctx.ev()
